@@ -18,7 +18,7 @@ RULE = (
     "and same tree as the baseline for the optimized interpreter and for code generated from the optimized "
     "rules; a configuration whose Parser cannot be built is a violation. Plus an exhaustive skip-until matrix: "
     "every ordered list of 1-3 stop strings over {a, b, aa, ab, ba, bb} x three rule shapes x every input over "
-    "{a, b, x} of length <= 4 (quick) / 5 (thorough) x {skip alone, default pipeline} x {interpreter, generated}; and the deterministic trivia-configuration and modifier-chain matrices of pestverif/tmatrix.py (194 + 450 grammars quick, 194 + 2325 thorough) under the default pipeline and single passes; and an exhaustive choice matrix (every ordered pair and triple from 13 literal / range / built-in (ASCII_DIGIT, NEWLINE) / case-insensitive alternatives x 49 inputs) under the default pipeline, inline-built-in alone and squash alone. Non-trivial: the configuration "
+    "{a, b, x} of length <= 4 (quick) / 5 (thorough) x {skip alone, default pipeline} x {interpreter, generated}; and the deterministic trivia-configuration and modifier-chain matrices of pestverif/tmatrix.py (194 + 450 grammars quick, 194 + 2325 thorough) under the default pipeline and single passes; and an exhaustive choice matrix (every ordered pair and triple from 14 literal / range (incl. a nested pair) / built-in (ASCII_DIGIT, NEWLINE) / case-insensitive alternatives x 49 inputs) under the default pipeline, inline-built-in alone and squash alone. Non-trivial: the configuration "
     "rewrote at least one rule (tree_view differs from the baseline) and the parse consumed input or failed "
     "beyond offset 0; distinct by hash of (grammar, configuration, mode, rule, input)."
 )
@@ -169,7 +169,7 @@ def run_squash_matrix(ctx: Ctx, modes, idx):
     from pestverif import gast
 
     pool = [("str", "a"), ("str", "ab"), ("str", "b"), ("str", "0"), ("str", "00"), ("str", "5x"), ("range", "0", "9"),
-            ("range", "a", "c"), ("id", "ASCII_DIGIT"), ("ci", "a"), ("ci", "ab"), ("str", ""), ("id", "NEWLINE")]
+            ("range", "a", "z"), ("range", "b", "d"), ("id", "ASCII_DIGIT"), ("ci", "a"), ("ci", "ab"), ("str", ""), ("id", "NEWLINE")]
     alts = list(itertools.permutations(pool, 2)) + list(itertools.permutations(pool, 3))
     inputs = ["".join(p) for n in range(3) for p in itertools.product("ab05xA", repeat=n)] + ["\n", "\r\n", "\r", "\nx", "\r\nx", "a\n"]
     calls = [("r", i, 0) for i in inputs]
